@@ -32,6 +32,11 @@ THEOREMS = [
     "Verif.C03.pixel_time_spec",
     "Verif.C03.duration_spec",
     "Verif.C03.sum_over_ranges_eq_image",
+    "Verif.C03.tsMeanRows_split_bounds",
+    "Verif.C03.tsMeanRows_no_overflow",
+    "Verif.C03.rows_below_min_witness",
+    "Verif.C03.pixel_ts_general",
+    "Verif.C03.pixel_ts_no_overflow",
 ]
 RULE = (
     "corpus (F11 input, split-mode mean witness) + malformed stream (empty wave, nothing used, no boundary, interior "
@@ -334,6 +339,15 @@ def _close_ns(ia, ma):
     return abs(sec - ns * 1e-9) <= 1e-12 * max(abs(ns) * 1e-9, 1e-300)
 
 
+def _fits_flag_ok(ma, values):
+    """a TEST of tsMeanRows_no_overflow / pixel_ts_no_overflow on every case: the model reports, after its answer,
+    whether every intermediate integer of its mean fits int64; for non-negative int64 input it must say T"""
+    parts = ma.split(" ")
+    if len(parts) < 3 or not values or min(values) < 0 or max(values) > I64MAX:
+        return True
+    return parts[1] == "T"
+
+
 def agree(case, i, ia, ma):
     op = case["op"]
     if ia == UNSEEN:
@@ -341,8 +355,13 @@ def agree(case, i, ia, ma):
     if op == "mean":
         return ia == ma.split(" ")[0]
     if op == "meanrows":
-        return ia == ma
+        flat = [x for r in case["rows"] for x in r]
+        return ia == ma.split(" ")[0] and _fits_flag_ok(ma, flat)
+    if op == "kmean":
+        return ia == ma.split(" ")[0] and _fits_flag_ok(ma, [case["start"], case["start"] + len(wave_of(case)) * case["dt"]])
     if op == "kymo":
+        if i == 0:
+            return ia == ma.split(" ")[0] and _fits_flag_ok(ma, [case["start"], case["start"] + len(wave_of(case)) * case["dt"]])
         if i == 1:
             return ia == ma.split(" ")[0]  # the model also reports the delta it used
         if i in (3, 4, 5):
@@ -773,6 +792,14 @@ def cases(tier, rng):
         for r2 in itertools.product([1, 4, I64MAX], repeat=2):
             yield {"stream": "small-scope", "op": "meanrows", "w": 2, "rows": [list(r1), list(r2)]}
 
+    # widths 3 and 4 (two split levels; the halves of a width-3 block have different widths), two rows: one row from a
+    # small set next to every row over four int64 boundary values
+    for w_, small in ((3, [[0, 1, 2], [5, 5, 5], [1, 0, I64MAX // 3 + 2]]), (4, [[0, 1, 2, 3], [7, 7, 7, 7], [3, 1, 0, I64MAX // 4 + 1]])):
+        for r1 in small:
+            for r2 in itertools.product([0, 1, I64MAX // 2 + 1, I64MAX], repeat=w_):
+                yield {"stream": "small-scope", "op": "meanrows", "w": w_, "rows": [list(r1), list(r2)]}
+                yield {"stream": "small-scope", "op": "meanrows", "w": w_, "rows": [list(r2), list(r1)]}
+
     # ---- exhaustive small scope: kymographs, truncated at every sample
     dts = (1, 55) if quick else (1, 7, 55, 110)
     rng3 = (1, 2, 3) if quick else (1, 2, 3, 4)
@@ -925,8 +952,13 @@ def extra_coverage(results):
     ksplit = {"split": 0, "no-split": 0, "split-below-floor": 0}
     unseen = 0
     sizes = []
+    rows_splits, pixel_splits = {}, {}
     for r in results:
         c = r["case"]
+        m0 = r["model"][0].split(" ") if r.get("model") else []
+        if len(m0) == 3 and c["op"] in ("meanrows", "kmean", "kymo"):
+            d = rows_splits if c["op"] == "meanrows" else pixel_splits
+            d[m0[2]] = d.get(m0[2], 0) + 1
         kinds[c["op"] + "/" + c.get("stream", "?")] = kinds.get(c["op"] + "/" + c.get("stream", "?"), 0) + 1
         for a in r["impl"]:
             if a.endswith("Error"):
@@ -963,6 +995,8 @@ def extra_coverage(results):
         "acquisition_shapes": shape,
         "mean_modes": split,
         "kmean_modes": ksplit,
+        "meanrows_splits_per_row": dict(sorted(rows_splits.items(), key=lambda kv: int(kv[0]))),
+        "pixel_mean_splits_per_pixel": dict(sorted(pixel_splits.items(), key=lambda kv: int(kv[0]))),
         "private_ties": {
             "label": "private names the harness reaches for, and where it found them (unreachable: renamed/moved - the "
                      "direct ops answered '?', the public tie through Kymo.timestamps carries the clause)",
